@@ -392,6 +392,23 @@ class Gen:
             # now and then a very wide variant: the number of fields is not limited by anything
             wide = r.choice([139, 150, 260]) if shape != "unit" and r.random() < 0.04 else None
             variants.append(Variant(f"V{i}", shape, self.fields(shape, 3, exact=wide)))
+        # twin variants: the same field types as an earlier variant, in another representation
+        # (plain <-> compact / encoded_as, or with one field skipped)
+        if not fieldless and r.random() < 0.35:
+            src = r.choice(variants)
+            if src.fields and len(src.fields) < 100:
+                twin = []
+                for f in src.fields:
+                    g = Field(f.name, f.ty, f.mode, f.as_ty, f.generic)
+                    if f.ty.bits and r.random() < 0.7:
+                        g.mode = r.choice([m for m in ("plain", "compact", "encoded_as") if m != f.mode])
+                        g.as_ty = f"Compact<{f.ty.rust}>" if g.mode == "encoded_as" else None
+                    elif f.mode == "plain" and f.ty.default and r.random() < 0.3:
+                        g.mode = "skip"
+                    elif f.mode == "skip" and r.random() < 0.5:
+                        g.mode = "plain"
+                    twin.append(g)
+                variants.insert(r.randrange(len(variants) + 1), Variant(f"V{len(variants)}", src.shape, twin))
         mode = force or r.choice(["position", "attr", "disc", "mixed", "mixed", "skipmix"])
         d = Def(self.fresh("E"), "enum", variants=variants, repr_u8=repr_u8)
         # skipped variants
